@@ -1,5 +1,5 @@
 import ApolloModel.Proofs.ParserLossless
-import ApolloModel.Proofs.ParserTermination3
+import ApolloModel.Proofs.ParserTermination8
 /-
 C01 — Parsing never panics, hangs or overflows the stack.
 
@@ -121,6 +121,55 @@ theorem value_grammar_terminates (n : Nat) : ValueGoal n := value_family n
     recursion selectionSet→selection→field→selectionSet (value.rs is done: `value_grammar_terminates`). -/
 theorem parse_terminates_partial (tl : Option Nat) (rl : Nat) (src : Parse.Str) (w : Abort) :
     (parse .type tl rl src).outcome ≠ .abort w := parse_type_terminates tl rl src w
+
+/-- argument.rs / directive.rs: `arguments` and `directives` (and their loop bodies `argument`,
+    `directive`, which consume the Name / `@` their `peek_while_kind` guard saw) terminate whenever
+    the fuel is at least `4·Mm + 4` -/
+theorem arguments_directives_terminate (n : Nat) (isConst : Bool) (s : PState) (hw : W s) (hb : 4 * Mm s + 4 ≤ n) :
+    Term (arguments n isConst) s (fun _ _ _ => True) ∧ Term (directives n isConst) s (fun _ _ _ => True) :=
+  ⟨ta_arguments n isConst s hw hb, ta_directives n isConst s hw hb⟩
+
+/-- selection.rs / field.rs / fragment.rs: the cycle selectionSet → selection → field / inlineFragment
+    → selectionSet terminates with the depth bounds `4·Mm + 2 / 5 / 4 / 4` (each turn of the cycle
+    consumes a token; `selection`'s flag loop is an instance of the loop theorem: every `Continue`
+    follows a consumed `...` or field Name) -/
+theorem selection_grammar_terminates (n : Nat) : SelGoal n := sel_family n
+
+/-- PARTIAL of `parse_terminates_statement` — the entry point `Parser::parse_selection_set`, for
+    every input, token limit and recursion limit: never out of fuel, never stuck. -/
+theorem parse_selection_set_terminates (tl : Option Nat) (rl : Nat) (src : Parse.Str) (w : Abort) :
+    (parse .selectionSet tl rl src).outcome ≠ .abort w := Parse.parse_selection_set_terminates tl rl src w
+
+/-- the definition parsers dispatched by `document()`: each terminates (fuel `≥ 4·Mm + 4`) and consumes a
+    token when entered on a description string or on its keyword — what the `document()` loop's
+    progress assertion needs.  Proved for the scalar / object / interface / union / enum / input-object
+    / schema / directive definitions (and, in Proofs/ParserTermination7.lean, for the fragment
+    definition and the scalar / object / interface / union / enum / input-object extensions, entered on
+    any token). -/
+theorem definitions_terminate_and_consume (n : Nat) (s : PState) (hw : W s) (hb : 4 * Mm s + 4 ≤ n) :
+    Term (scalarTypeDefinition n) s (GC (DefGuard "scalar") s) ∧
+    Term (objectTypeDefinition n) s (GC (DefGuard "type") s) ∧
+    Term (interfaceTypeDefinition n) s (GC (DefGuard "interface") s) ∧
+    Term (unionTypeDefinition n) s (GC (DefGuard "union") s) ∧
+    Term (enumTypeDefinition n) s (GC (DefGuard "enum") s) ∧
+    Term (inputObjectTypeDefinition n) s (GC (DefGuard "input") s) ∧
+    Term (schemaDefinition n) s (GC (DefGuard "schema") s) ∧
+    Term (directiveDefinition n) s (GC (DefGuard "directive") s) ∧
+    Term (fragmentDefinition n) s (GC GAny s) :=
+  ⟨gc_scalarTypeDefinition n s hw hb, gc_objectTypeDefinition n s hw hb, gc_interfaceTypeDefinition n s hw hb,
+   gc_unionTypeDefinition n s hw hb, gc_enumTypeDefinition n s hw hb, gc_inputObjectTypeDefinition n s hw hb,
+   gc_schemaDefinition n s hw hb, gc_directiveDefinition n s hw hb, gc_fragmentDefinition n s hw hb⟩
+
+/-- THE PARSER MODEL TERMINATES — `parse_terminates_statement` is a theorem: for every entry point
+    (`Parser::parse`, `parse_selection_set`, `parse_type`), every input, token limit and recursion
+    limit, the outcome is never an abort: the model's fuel `4·|src|+20` never runs out and the
+    `peek_while` / `peek_while_kind` progress assertions never fail.  With `parse_no_panic` this is the
+    "never panics, never hangs" clause of C01 for the whole parser model.
+    (document.rs: every definition parser consumes a token when `document()` dispatches to it —
+    on a description string or on its keyword — so the top-level `peek_while` is an instance of
+    `peek_while_terminates`; Proofs/ParserTermination4–8.lean.) -/
+theorem parse_terminates : parse_terminates_statement :=
+  fun e tl rl src w => Parse.parse_terminates e tl rl src w
 
 -- Regression witnesses for the repaired defects (evaluated by the kernel on the model)
 def isTree (r : PResult) : Bool := match r.outcome with | .tree _ => true | _ => false
